@@ -5,6 +5,7 @@ import (
 	"sync"
 
 	"github.com/feichai0017/NoKV/kv"
+	"github.com/feichai0017/NoKV/utils"
 )
 
 // Manager provides hashed latches on keys to serialize conflicting
@@ -54,6 +55,7 @@ body:
 	}
 	sort.Ints(indices)
 	for _, idx := range indices {
+		utils.VerifYield("latch.lock", uint64(idx))
 		m.stripes[idx].Lock()
 	}
 	return &Guard{manager: m, slots: indices}
